@@ -310,6 +310,72 @@ func TestVerifC09(t *testing.T) {
 		coq := fmt.Sprintf("CStress %d %d %s %d", c0, len(cs), vharness.Ns(sorted), fin)
 		out.Emit(vharness.Case{Kind: "stress", Coq: coq, Key: fmt.Sprintf("stress-%d-%s", it, coq[:20]), Nontrivial: true, OracleOK: ok, Note: note, Sig: sig})
 	}
+	// ---- first use: the own chain key of a group is created by whoever uses the group first (PutGroup,
+	// GetShareableChainKey, SealEnvelope of an opened group); several tasks doing that at once, each
+	// sealing right afterwards, must still share ONE chain: counters 1..n, no restart ----
+	nFirst := vharness.Budget(40, 800)
+	for it := 0; it < nFirst; it++ {
+		kind := it % 3
+		ds := &c09ds{Datastore: dssync.MutexWrap(datastore.NewMapDatastore()), rng: rand.New(rand.NewSource(rng.Int63())), stress: true, lastCtr: map[string]uint64{}}
+		st, err := newSecretStore(ds, nil)
+		if err != nil {
+			t.Fatal(err)
+		}
+		w := &c09world{ds: ds, store: st, g: vGroup(t, kind, st)}
+		recv := vNewAccount(t).store(t, 100)
+		rmd, _ := recv.GetOwnMemberDeviceForGroup(w.g)
+		tasks, per := 2+rng.Intn(5), 1+rng.Intn(4)
+		var wg sync.WaitGroup
+		var firstErr error
+		for i := 0; i < tasks; i++ {
+			wg.Add(1)
+			go func(i int) {
+				defer wg.Done()
+				var err error
+				if i%2 == 0 {
+					err = w.store.PutGroup(ctx, w.g)
+				} else {
+					_, err = w.store.GetShareableChainKey(ctx, w.g, rmd.Member())
+				}
+				if err != nil {
+					w.mu.Lock()
+					firstErr = err
+					w.mu.Unlock()
+					return
+				}
+				for j := 0; j < per; j++ {
+					e, err := w.store.SealEnvelope(ctx, w.g, vPayload(uint64(i*1000+j), 4))
+					if err != nil {
+						w.mu.Lock()
+						firstErr = err
+						w.mu.Unlock()
+						return
+					}
+					w.mu.Lock()
+					w.envs = append(w.envs, e)
+					w.mu.Unlock()
+				}
+			}(i)
+		}
+		wg.Wait()
+		cs := w.counters(t)
+		fin := w.finalCtr()
+		ok, sig, note := oracle(0, cs, fin, w.ds.decreased)
+		if ok && firstErr != nil {
+			ok, sig, note = false, "concurrent first use of a group fails", firstErr.Error()
+		}
+		if ok && len(cs) != tasks*per {
+			ok, sig, note = false, "concurrent first use of a group fails", fmt.Sprintf("%d envelopes for %d sends", len(cs), tasks*per)
+		}
+		if note != "" {
+			note = fmt.Sprintf("%d tasks use a fresh group at once (PutGroup / GetShareableChainKey) and seal %d messages each: %s", tasks, per, note)
+		}
+		sorted := append([]uint64(nil), cs...)
+		sort.Slice(sorted, func(i, j int) bool { return sorted[i] < sorted[j] })
+		coq := fmt.Sprintf("CStress 0 %d %s %d", len(cs), vharness.Ns(sorted), fin)
+		out.Emit(vharness.Case{Kind: "first-use", Coq: coq, Key: fmt.Sprintf("first-use-%d-%d-%d", it, tasks, per), Nontrivial: true, OracleOK: ok, Note: note, Sig: sig,
+			Replay: map[string]any{"tasks": tasks, "messages_each": per, "group_kind": kind, "counters": sorted, "stored_counter": fin}})
+	}
 	// ---- several groups of one store: the account group and the contact groups of an account share
 	// the device key; every group keeps its own chain and its own gap-free run of counters ----
 	nMulti := vharness.Budget(6, 100)
